@@ -479,8 +479,9 @@ func (g *c14Gen) expr(d int, scope []string) c14E {
 			l := sub()
 			mid := len(g.txt.Sites)
 			rr := sub()
-			if strings.HasPrefix(o.op, "IS") && strings.EqualFold(rr.s, "null") {
-				// "x IS [NOT] NULL" is a null test whichever way it was produced
+			if up := strings.ToUpper(rr.s); strings.HasPrefix(o.op, "IS") && strings.HasPrefix(up, "NULL") && (len(up) == 4 || !c14IsIdChar(up[4])) {
+				// "x IS [NOT] NULL" is a null test whichever way it was produced; rqlite/sql also reads
+				// "x IS NULL >= 1" as "(x IS NULL) >= 1" (SQLite: x IS (NULL >= 1)), a Null node again
 				for _, s := range g.txt.Sites[before:mid] {
 					s.Ctx = append(s.Ctx, "nulltest")
 				}
